@@ -3,7 +3,8 @@ from ..runner import Suite, Verdict
 from .. import gen
 from ..core import hx
 
-NAMES = [b"a", b"b", b"c", b"a.txt", b"a-b", b"d", b"l", b"k", b"foo", b"a b"]
+# (names that only START with two dots are ordinary names: Kubernetes-style "..data", "...")
+NAMES = [b"a", b"b", b"c", b"a.txt", b"a-b", b"d", b"l", b"k", b"foo", b"a b", b"..data", b"...", b"..2"]
 
 
 def link_tree(rng):
